@@ -29,6 +29,14 @@ func main() {
 		buf, p = pgen.Buffer(frame, spare)
 		return pgen.Observe(s, buf, p).Full
 	})
+	// tog N hexA hexB: a stream of online transitions parsed while every runtime switch is flipped concurrently (togunit.go)
+	r.Register("tog", func(a []string) string { o, _ := runTog(a); return o })
+	r.Register("census", func(a []string) string {
+		if txt, ok := censusSwitches(); ok {
+			return txt
+		}
+		return "unrecognised"
+	})
 	// consts NAME: a size the library fixes in its constructor (rowsunit.go)
 	r.Register("consts", constsRunner)
 	// locks send: mutexes lexically held at calls that can reach Conn.WriteTo in package packet (locksend.go)
@@ -89,7 +97,7 @@ func main() {
 		}
 	})
 	// last: a violation in these two units can leave a process-global or session lock held for good
-	if !gateUnit(r) {
+	if !togUnit(r) && !gateUnit(r) {
 		pingUnit(r)
 	}
 }
